@@ -124,29 +124,88 @@ pub fn take_ctor_stats() -> simcore::countalloc::AllocStats {
 pub trait MkEngine: Engine + Sized + 'static {
     fn mk() -> Self;
 }
+
+thread_local! {
+    static MK_COUNTER: std::cell::Cell<u32> = const { std::cell::Cell::new(0) };
+}
+
+/// Engines are constructed alternately through `new()`, `Default::default()` and (where the type is `Copy`)
+/// a copy of a constructed value: all documented ways of obtaining one.
+/// Called at the start of every run so that the sequence is a function of the run alone.
+pub fn reset_mk_counter() {
+    MK_COUNTER.with(|c| c.set(0));
+}
+
+fn mk_variant() -> u32 {
+    MK_COUNTER.with(|c| {
+        let v = c.get();
+        c.set(v.wrapping_add(1));
+        v % 3
+    })
+}
 impl MkEngine for Naive {
     fn mk() -> Self {
-        Naive::new()
+        match mk_variant() {
+            0 => Naive::new(),
+            1 => Naive::default(),
+            _ => {
+                let first = Naive::new();
+                let copy = first;
+                std::hint::black_box(first);
+                copy
+            }
+        }
     }
 }
 impl MkEngine for NoSimd {
     fn mk() -> Self {
-        NoSimd::new()
+        match mk_variant() {
+            0 => NoSimd::new(),
+            1 => NoSimd::default(),
+            _ => {
+                let first = NoSimd::new();
+                let copy = first;
+                std::hint::black_box(first);
+                copy
+            }
+        }
     }
 }
 impl MkEngine for Ssse3 {
     fn mk() -> Self {
-        Ssse3::new()
+        match mk_variant() {
+            0 => Ssse3::new(),
+            1 => Ssse3::default(),
+            _ => {
+                let first = Ssse3::new();
+                let copy = first;
+                std::hint::black_box(first);
+                copy
+            }
+        }
     }
 }
 impl MkEngine for Avx2 {
     fn mk() -> Self {
-        Avx2::new()
+        match mk_variant() {
+            0 => Avx2::new(),
+            1 => Avx2::default(),
+            _ => {
+                let first = Avx2::new();
+                let copy = first;
+                std::hint::black_box(first);
+                copy
+            }
+        }
     }
 }
 impl MkEngine for DefaultEngine {
     fn mk() -> Self {
-        DefaultEngine::new()
+        if mk_variant() == 1 {
+            DefaultEngine::default()
+        } else {
+            DefaultEngine::new()
+        }
     }
 }
 impl MkEngine for NeonEmu {
@@ -245,6 +304,7 @@ fn enc_new_t<E: MkEngine, T: RateEncoder<E> + 'static>(
     work: Option<EncoderWork>,
 ) -> Result<Box<dyn DynEncoder>, Error> {
     let engine = E::mk();
+    let work = empty_enc_work(work, k, r);
     // only the crate's constructor is an allocation region, not the harness Box or the engine
     let (inner, stats) = simcore::countalloc::measure(|| T::new(k, r, b, engine, work));
     CTOR_STATS.with(|c| c.set(stats));
@@ -257,9 +317,30 @@ where
     R::RateEncoder: 'static,
 {
     let engine = E::mk();
+    let work = empty_enc_work(work, k, r);
     let (inner, stats) = simcore::countalloc::measure(|| R::encoder(k, r, b, engine, work));
     CTOR_STATS.with(|c| c.set(stats));
     Ok(Box::new(EncWrap(inner?, std::marker::PhantomData)))
+}
+
+/// "No working space" is passed as `None`, as a freshly constructed `EncoderWork::new()` or as
+/// `EncoderWork::default()` (all documented as equivalent), depending on the configuration.
+fn empty_enc_work(work: Option<EncoderWork>, k: usize, r: usize) -> Option<EncoderWork> {
+    match (work, (k ^ r) % 3) {
+        (Some(w), _) => Some(w),
+        (None, 1) => Some(EncoderWork::new()),
+        (None, 2) => Some(EncoderWork::default()),
+        (None, _) => None,
+    }
+}
+
+fn empty_dec_work(work: Option<DecoderWork>, k: usize, r: usize) -> Option<DecoderWork> {
+    match (work, (k ^ r) % 3) {
+        (Some(w), _) => Some(w),
+        (None, 1) => Some(DecoderWork::new()),
+        (None, 2) => Some(DecoderWork::default()),
+        (None, _) => None,
+    }
 }
 
 /// Which of the two documented constructors is used: a deterministic function of the configuration.
@@ -385,6 +466,7 @@ fn dec_new_t<E: MkEngine, T: RateDecoder<E> + 'static>(
     work: Option<DecoderWork>,
 ) -> Result<Box<dyn DynDecoder>, Error> {
     let engine = E::mk();
+    let work = empty_dec_work(work, k, r);
     let (inner, stats) = simcore::countalloc::measure(|| T::new(k, r, b, engine, work));
     CTOR_STATS.with(|c| c.set(stats));
     Ok(Box::new(DecWrap(inner?, std::marker::PhantomData)))
@@ -395,6 +477,7 @@ where
     R::RateDecoder: 'static,
 {
     let engine = E::mk();
+    let work = empty_dec_work(work, k, r);
     let (inner, stats) = simcore::countalloc::measure(|| R::decoder(k, r, b, engine, work));
     CTOR_STATS.with(|c| c.set(stats));
     Ok(Box::new(DecWrap(inner?, std::marker::PhantomData)))
